@@ -35,22 +35,22 @@ Qed.
 Lemma create_inv st k par isPar lnd mx :
   minv st -> afind k (g_quotas st) = None -> k <> 0 ->
   (par = 0 \/ afind par (g_quotas st) <> None) ->
-  minv (do_max k mx (mkM (g_total st) (g_quotas st ++ [(k, mkMQ par isPar (q_new lnd 0) 0 0)])
+  minv (do_max k mx (remake st (g_total st) (g_quotas st ++ [(k, mkMQ par isPar (q_new lnd 0) 0 0)])
                          (aset k calc0 (g_calcs st)) (g_pods st))).
 Proof.
   intros Hi Hf Hk Hpar.
   set (mq0 := mkMQ par isPar (q_new lnd 0) 0 0).
-  set (st1 := mkM (g_total st) (g_quotas st ++ [(k, mq0)]) (aset k calc0 (g_calcs st)) (g_pods st)).
+  set (st1 := remake st (g_total st) (g_quotas st ++ [(k, mq0)]) (aset k calc0 (g_calcs st)) (g_pods st)).
   assert (Hpk : par <> k).
   { destruct Hpar as [->|H]; [congruence|]. intro E. subst par. congruence. }
   unfold do_max. assert (Hf1 : afind k (g_quotas st1) = Some mq0).
-  { cbn [st1 g_quotas]. rewrite afind_app, Hf, Z.eqb_refl. reflexivity. }
+  { cbn [st1 g_quotas remake]. rewrite afind_app, Hf, Z.eqb_refl. reflexivity. }
   rewrite Hf1. cbv zeta. apply rec_delta_inv.
   set (q' := q_set_max mx (m_info mq0)).
   assert (Hnk : ~ In k (map fst (g_quotas st))) by (apply afind_None, Hf).
   assert (Hq : g_quotas (upd_calc (m_parent mq0) (updateOneGroupMaxQuota k q') (set_quota k (with_info mq0 q') st1))
                = g_quotas st ++ [(k, with_info mq0 q')]).
-  { cbn [upd_calc set_calc set_quota g_quotas st1]. rewrite (aset_live k _ mq0) by exact Hf1.
+  { cbn [upd_calc set_calc set_quota g_quotas st1 remake]. rewrite (aset_live k _ mq0) by exact Hf1.
     unfold repl. rewrite map_app. fold (repl k (with_info mq0 q') (g_quotas st)).
     rewrite repl_absent by exact Hnk. cbn [map fst]. rewrite Z.eqb_refl. reflexivity. }
   assert (Hc : forall p, get_calc p (upd_calc (m_parent mq0) (updateOneGroupMaxQuota k q') (set_quota k (with_info mq0 q') st1))
@@ -58,7 +58,7 @@ Proof.
                  else if k =? p then calc0 else get_calc p st).
   { intro p. rewrite get_calc_upd, !get_calc_set_quota. cbn [mq0 m_parent].
     assert (Hg : forall p', get_calc p' st1 = if k =? p' then calc0 else get_calc p' st).
-    { intro p'. unfold get_calc. cbn [st1 g_calcs]. rewrite afind_aset. destruct (k =? p'); reflexivity. }
+    { intro p'. unfold get_calc. cbn [st1 g_calcs remake]. rewrite afind_aset. destruct (k =? p'); reflexivity. }
     rewrite !Hg. destruct (k =? par) eqn:E; [apply Z.eqb_eq in E; congruence|]. reflexivity. }
   constructor.
   - rewrite Hq, map_app. cbn [map fst]. apply NoDup_app_snoc; [apply (mi_nodup st Hi)|exact Hnk].
@@ -83,7 +83,7 @@ Proof.
       inversion H1; subst mq1. cbn [with_info m_parent mq0]. split; [exact Hpk|].
       destruct Hpar as [Hp|Hp]; [left; exact Hp|right; apply Hlive, Hp].
   - rewrite Hq, afind_app, (mi_noroot st Hi). destruct (k =? 0) eqn:E; [apply Z.eqb_eq in E; congruence|reflexivity].
-  - rewrite Hc. cbn [upd_calc set_calc set_quota g_total st1].
+  - rewrite Hc. cbn [upd_calc set_calc set_quota g_total st1 remake].
     destruct (par =? 0) eqn:E.
     + apply Z.eqb_eq in E. subst par. cbn [updateOneGroupMaxQuota c_total]. apply (mi_root_total st Hi).
     + destruct (k =? 0) eqn:E2; [apply Z.eqb_eq in E2; congruence|]. apply (mi_root_total st Hi).
@@ -126,7 +126,7 @@ Proof.
   intro Hi. unfold delete_quota. destruct (afind k (g_quotas st)) as [mq|] eqn:Hf; [|exact Hi].
   destruct (has_children k st) eqn:Hch; [exact Hi|]. cbv zeta.
   set (pods' := filter (fun p => negb (fst (fst p) =? k)) (g_pods st)).
-  set (st1 := mkM (g_total st) (adel k (g_quotas st)) (adel k (g_calcs st)) pods').
+  set (st1 := remake st (g_total st) (adel k (g_quotas st)) (adel k (g_calcs st)) pods').
   set (st2 := upd_calc (m_parent mq) (deleteOneGroup k) st1).
   destruct (mi_parents st Hi k mq Hf) as [Hpk Hpl].
   assert (Hk0 : k <> 0) by (intro E; subst k; rewrite (mi_noroot st Hi) in Hf; discriminate).
@@ -135,11 +135,11 @@ Proof.
                                           else if k =? p then calc0 else get_calc p st).
     { intro p. unfold st2. rewrite get_calc_upd.
       assert (Hg : forall p', get_calc p' st1 = if k =? p' then calc0 else get_calc p' st).
-      { intro p'. unfold get_calc. cbn [st1 g_calcs]. rewrite afind_adel. destruct (k =? p'); reflexivity. }
+      { intro p'. unfold get_calc. cbn [st1 g_calcs remake]. rewrite afind_adel. destruct (k =? p'); reflexivity. }
       rewrite !Hg. destruct (k =? m_parent mq) eqn:E; [apply Z.eqb_eq in E; congruence|]. reflexivity. }
     constructor.
-    - cbn [st2 upd_calc set_calc g_quotas st1]. unfold adel. apply NoDup_map_filter, (mi_nodup st Hi).
-    - intro p. unfold wld. rewrite Hc. cbn [st2 upd_calc set_calc g_quotas st1]. rewrite kids_adel.
+    - cbn [st2 upd_calc set_calc g_quotas st1 remake]. unfold adel. apply NoDup_map_filter, (mi_nodup st Hi).
+    - intro p. unfold wld. rewrite Hc. cbn [st2 upd_calc set_calc g_quotas st1 remake]. rewrite kids_adel.
       destruct (m_parent mq =? p) eqn:E.
       + apply Z.eqb_eq in E. subst p.
         pose proof (step_inv _ (ODelete k) (mi_worlds st Hi (m_parent mq))) as H.
@@ -147,7 +147,7 @@ Proof.
       + apply Z.eqb_neq in E. rewrite tab_del_absent by (eapply kids_not_mine; eassumption).
         destruct (k =? p) eqn:E2; [|apply (mi_worlds st Hi p)].
         apply Z.eqb_eq in E2. subst p. rewrite (no_children_kids st k Hch). apply world0_calc_inv.
-    - intros k' mq1 H1. cbn [st2 upd_calc set_calc g_quotas st1] in *. rewrite afind_adel in H1.
+    - intros k' mq1 H1. cbn [st2 upd_calc set_calc g_quotas st1 remake] in *. rewrite afind_adel in H1.
       destruct (k =? k') eqn:E; [discriminate|].
       destruct (mi_parents st Hi k' mq1 H1) as [Hn Hp]. split; [exact Hn|].
       destruct Hp as [Hp|Hp]; [left; exact Hp|right]. rewrite afind_adel.
@@ -157,8 +157,8 @@ Proof.
       assert (X : existsb (fun p => m_parent (snd p) =? k) (g_quotas st) = true).
       { apply existsb_exists. exists (k', mq1). split; [apply afind_In, H1|]. cbn. apply Z.eqb_eq. congruence. }
       unfold has_children in Hch. congruence.
-    - cbn [st2 upd_calc set_calc g_quotas st1]. rewrite afind_adel, (mi_noroot st Hi). destruct (k =? 0); reflexivity.
-    - rewrite Hc. cbn [st2 upd_calc set_calc g_total st1].
+    - cbn [st2 upd_calc set_calc g_quotas st1 remake]. rewrite afind_adel, (mi_noroot st Hi). destruct (k =? 0); reflexivity.
+    - rewrite Hc. cbn [st2 upd_calc set_calc g_total st1 remake].
       destruct (m_parent mq =? 0) eqn:E.
       + apply Z.eqb_eq in E. rewrite E. cbn [deleteOneGroup c_total]. apply (mi_root_total st Hi).
       + destruct (k =? 0) eqn:E2; [apply Z.eqb_eq in E2; congruence|]. apply (mi_root_total st Hi). }
@@ -176,7 +176,7 @@ Proof.
   assert (H1 : minv (match pod_find k s st with
                      | Some old =>
                          let st' := pod_request_delta k (- old) st in
-                         mkM (g_total st') (g_quotas st') (g_calcs st')
+                         remake st' (g_total st') (g_quotas st') (g_calcs st')
                            (filter (fun p => negb ((fst (fst p) =? k) && (snd (fst p) =? s))) (g_pods st'))
                      | None => st
                      end)).
@@ -314,19 +314,63 @@ Proof. intros [H1 H2] [H3 H4]. split; intro x; [rewrite H1; apply H3|rewrite H2;
 Lemma same_figs_upd_calc st p f : same_figs st (upd_calc p f st).
 Proof. split; reflexivity. Qed.
 
-Lemma refresh_down_spec pth : forall st0 st par T,
+(* ---------- the scaling step of a level ---------- *)
+Lemma scale_level_off k T hk st : scale_level false k T hk st = st.
+Proof. unfold scale_level. destruct (afind k (g_quotas st)); reflexivity. Qed.
+
+Lemma scale_level_inv sc k T hk st : minv st -> minv (scale_level sc k T hk st).
+Proof.
+  intro Hi. unfold scale_level. destruct (afind k (g_quotas st)) as [mq|] eqn:Hf; [|exact Hi].
+  cbv zeta. destruct (sc && negb (q_min (m_info mq) =? _)); [|exact Hi].
+  set (nm := get_scaled hk T (esum (m_parent mq) st) (m_min mq)).
+  apply (push_inv st k mq (with_info mq (q_set_min nm (m_info mq)))
+           (updateOneGroupMinQuota k (q_set_min nm (m_info mq)))); try assumption; try reflexivity.
+  cbn [with_info m_info].
+  pose proof (step_inv _ (OSetMin k nm) (mi_worlds st Hi (m_parent mq))) as H.
+  cbn [step] in H. rewrite (on_live_wld st k mq _ _ Hi Hf) in H. exact H.
+Qed.
+
+(* one level of RefreshRuntime after its scaling step *)
+Lemma level_total_inv st j mq r :
+  minv st -> afind j (g_quotas st) = Some mq ->
+  minv (upd_calc j (setClusterTotalResource r) st).
+Proof.
+  intros Hi Hf.
+  assert (Hj0 : j <> 0) by (intro E; subst j; rewrite (mi_noroot st Hi) in Hf; discriminate).
+  apply (calc_only_inv st _ j (setClusterTotalResource r (get_calc j st))); try assumption.
+  - reflexivity.
+  - intro p'. rewrite get_calc_upd. reflexivity.
+  - pose proof (step_inv _ (OSetTotal r) (mi_worlds st Hi j)) as H. exact H.
+  - rewrite get_calc_upd. destruct (j =? 0) eqn:E; [apply Z.eqb_eq in E; congruence|].
+    apply (mi_root_total st Hi).
+Qed.
+
+Lemma refresh_down_inv sc pth : forall T hk st, minv st -> minv (refresh_down sc pth T hk st).
+Proof.
+  induction pth as [|j rest IH]; intros T hk st Hi; [exact Hi|].
+  cbn [refresh_down]. cbv zeta.
+  pose proof (scale_level_inv sc j T hk st Hi) as Hi0.
+  set (sta := scale_level sc j T hk st) in *.
+  destruct (afind j (g_quotas sta)) as [mq|] eqn:Hf; [|exact Hi0].
+  rewrite refresh_guard.
+  destruct (level_inv sta j mq Hi0 Hf) as [Hi1 [_ [_ Hf1]]].
+  apply IH. destruct rest; [exact Hi1|]. eapply level_total_inv; eassumption.
+Qed.
+
+Lemma refresh_down_spec pth : forall st0 st par T Tm hk,
   same_figs st0 st -> minv st -> chain par pth st0 -> c_total (get_calc par st) = T ->
-  minv (refresh_down pth st) /\ same_figs st0 (refresh_down pth st)
+  same_figs st0 (refresh_down false pth Tm hk st)
   /\ (pth <> [] ->
-      exists mq', afind (last pth 0) (g_quotas (refresh_down pth st)) = Some mq'
+      exists mq', afind (last pth 0) (g_quotas (refresh_down false pth Tm hk st)) = Some mq'
                   /\ down pth T st0 = Some (q_runtime (m_info mq'))).
 Proof.
-  induction pth as [|j rest IH]; intros st0 st par T Hs Hi Hch HT.
-  - cbn [refresh_down]. split; [exact Hi|]. split; [exact Hs|]. intro H. congruence.
+  induction pth as [|j rest IH]; intros st0 st par T Tm hk Hs Hi Hch HT.
+  - cbn [refresh_down]. split; [exact Hs|]. intro H. congruence.
   - cbn [chain] in Hch. destruct Hch as [Hpj Hch].
     destruct Hs as [Hs1 Hs2].
     assert (Hpj' : option_map m_parent (afind j (g_quotas st)) = Some par) by (rewrite <- Hs2; exact Hpj).
-    cbn [refresh_down]. destruct (afind j (g_quotas st)) as [mq|] eqn:Hf; [|discriminate].
+    cbn [refresh_down]. rewrite scale_level_off.
+    destruct (afind j (g_quotas st)) as [mq|] eqn:Hf; [|discriminate].
     cbn [option_map] in Hpj'. inversion Hpj' as [Hpar].
     cbv zeta. rewrite refresh_guard.
     destruct (level_inv st j mq Hi Hf) as [Hi1 [Hsf1 [Hr Hf1]]].
@@ -334,25 +378,18 @@ Proof.
     set (q' := updateOneGroupRuntimeQuota j (m_info mq) (get_calc par st)) in *.
     set (st1 := set_quota j (with_info mq q') st) in *.
     destruct rest as [|j2 rest'].
-    + cbn [refresh_down]. split; [exact Hi1|]. split; [eapply same_figs_trans; [split; eassumption|exact Hsf1]|].
+    + cbn [refresh_down]. split; [eapply same_figs_trans; [split; eassumption|exact Hsf1]|].
       intros _. cbn [last]. exists (with_info mq q'). split; [exact Hf1|].
       cbn [down]. rewrite Hpj. rewrite Hr. reflexivity.
     + set (st2 := upd_calc j (setClusterTotalResource (q_runtime q')) st1).
-      assert (Hj0 : j <> 0) by (intro E; subst j; rewrite (mi_noroot st Hi) in Hf; discriminate).
-      assert (Hi2 : minv st2).
-      { apply (calc_only_inv st1 _ j (setClusterTotalResource (q_runtime q') (get_calc j st1))); try assumption.
-        - reflexivity.
-        - intro p'. unfold st2. rewrite get_calc_upd. reflexivity.
-        - pose proof (step_inv _ (OSetTotal (q_runtime q')) (mi_worlds st1 Hi1 j)) as H. exact H.
-        - unfold st2. rewrite get_calc_upd. destruct (j =? 0) eqn:E; [apply Z.eqb_eq in E; congruence|].
-          apply (mi_root_total st1 Hi1). }
+      assert (Hi2 : minv st2) by (eapply level_total_inv; eassumption).
       assert (Hs02 : same_figs st0 st2).
       { eapply same_figs_trans; [split; eassumption|]. eapply same_figs_trans; [exact Hsf1|].
         apply same_figs_upd_calc. }
       assert (HT2 : c_total (get_calc j st2) = q_runtime q').
       { unfold st2. rewrite get_calc_upd, Z.eqb_refl. reflexivity. }
-      destruct (IH st0 st2 j (q_runtime q') Hs02 Hi2 Hch HT2) as [Hi3 [Hs3 Hlast]].
-      split; [exact Hi3|]. split; [exact Hs3|]. intros _.
+      destruct (IH st0 st2 j (q_runtime q') (q_runtime q') true Hs02 Hi2 Hch HT2) as [Hs3 Hlast].
+      split; [exact Hs3|]. intros _.
       destruct (Hlast ltac:(discriminate)) as [mq' [Hl Hd]].
       exists mq'. split; [exact Hl|].
       cbn [down]. rewrite Hpj, Hr. exact Hd.
@@ -419,13 +456,16 @@ Qed.
 Lemma same_figs_refl st : same_figs st st.
 Proof. split; reflexivity. Qed.
 
-(* RefreshRuntime(k) *)
+Lemma refresh_inv sc k st : minv st -> minv (refresh sc k st).
+Proof. intro Hi. apply refresh_down_inv, Hi. Qed.
+
+(* RefreshRuntime(k), min-quota scaling off *)
 Theorem refresh_division st k mq :
   minv st -> afind k (g_quotas st) = Some mq ->
   let pth := rev (path k st) in
   let top := top_parent pth st in
-  minv (refresh k st) /\ same_figs st (refresh k st)
-  /\ exists mq', afind k (g_quotas (refresh k st)) = Some mq'
+  same_figs st (refresh false k st)
+  /\ exists mq', afind k (g_quotas (refresh false k st)) = Some mq'
                  /\ down pth (c_total (get_calc top st)) st = Some (q_runtime (m_info mq')).
 Proof.
   intros Hi Hf pth top. unfold refresh. fold pth.
@@ -434,45 +474,49 @@ Proof.
   assert (Hne : path k st <> []).
   { unfold path. cbn [path_of]. destruct (k =? 0) eqn:E; [apply Z.eqb_eq in E; congruence|].
     rewrite Hf. discriminate. }
-  destruct (refresh_down_spec pth st st top (c_total (get_calc top st)) (same_figs_refl st) Hi Hc eq_refl)
-    as [Hi' [Hs' Hlast]].
-  split; [exact Hi'|]. split; [exact Hs'|].
+  destruct (refresh_down_spec pth st st top (c_total (get_calc top st)) (g_total st) (g_hasTotal st)
+              (same_figs_refl st) Hi Hc eq_refl) as [Hs' Hlast].
+  split; [exact Hs'|].
   assert (Hpne : pth <> []).
   { unfold pth. intro E. apply Hne. apply (f_equal (@rev Z)) in E. rewrite rev_involutive in E. exact E. }
   destruct (Hlast Hpne) as [mq' [H1 H2]]. rewrite (Hl Hne) in H1. eauto.
 Qed.
 
 (* ---------- histories ---------- *)
-Lemma mobserve_inv ks : forall st, minv st -> minv (fst (mobserve ks st)).
+Lemma mobserve1_inv sc ks : forall st, minv st -> minv (fst (mobserve1 sc ks st)).
 Proof.
   induction ks as [|k ks IH]; intros st Hi; [exact Hi|].
-  cbn [mobserve]. destruct (afind k (g_quotas st)) as [mq|] eqn:Hf.
-  - destruct (refresh_division st k mq Hi Hf) as [Hi' _].
-    specialize (IH (refresh k st) Hi').
-    destruct (mobserve ks (refresh k st)) as [st' o]. exact IH.
-  - specialize (IH st Hi). destruct (mobserve ks st) as [st' o]. exact IH.
+  cbn [mobserve1]. destruct (afind k (g_quotas st)) as [mq|] eqn:Hf.
+  - specialize (IH (refresh sc k st) (refresh_inv sc k st Hi)).
+    destruct (mobserve1 sc ks (refresh sc k st)) as [st' o]. exact IH.
+  - specialize (IH st Hi). destruct (mobserve1 sc ks st) as [st' o]. exact IH.
 Qed.
 
-Definition mostep (K : nat) (st : mgr) (o : mop) : mgr := fst (mobserve (ids K) (mstep true st o)).
-Definition mrun (K : nat) (ops : list mop) : mgr := fold_left (mostep K) ops mgr0.
-
-Theorem mrun_inv K ops : minv (mrun K ops).
+Lemma mobserve_inv sc ks st : minv st -> minv (fst (mobserve sc ks st)).
 Proof.
-  unfold mrun. assert (H : forall st, minv st -> minv (fold_left (mostep K) ops st)).
+  intro Hi. unfold mobserve. destruct sc; repeat apply mobserve1_inv; exact Hi.
+Qed.
+
+Definition mostep (sc : bool) (K : nat) (st : mgr) (o : mop) : mgr := fst (mobserve sc (ids K) (mstep true st o)).
+Definition mrun (sc : bool) (K : nat) (ops : list mop) : mgr := fold_left (mostep sc K) ops mgr0.
+
+Theorem mrun_inv sc K ops : minv (mrun sc K ops).
+Proof.
+  unfold mrun. assert (H : forall st, minv st -> minv (fold_left (mostep sc K) ops st)).
   { induction ops as [|o ops IH]; intros st Hi; [exact Hi|].
     cbn [fold_left]. apply IH. apply mobserve_inv, mstep_inv, Hi. }
   apply H, mgr0_inv.
 Qed.
 
 (* ---------- the exported statements ---------- *)
-Lemma mgr_calculators_agree K ops p :
-  let st := mrun K ops in let c := get_calc p st in let tb := kids p (g_quotas st) in
+Lemma mgr_calculators_agree sc K ops p :
+  let st := mrun sc K ops in let c := get_calc p st in let tb := kids p (g_quotas st) in
   c_tree c = abs tb
   /\ (forall k, c_get k (c_reqLimit c) = match tab_find k tb with Some q => limit_req q | None => 0 end)
   /\ (forall k, c_get k (c_guaranteed c) = match tab_find k tb with Some q => q_guar q | None => 0 end)
   /\ c_total (get_calc 0 st) = g_total st.
 Proof.
-  cbv zeta. pose proof (mrun_inv K ops) as Hi.
+  cbv zeta. pose proof (mrun_inv sc K ops) as Hi.
   pose proof (mi_worlds _ Hi p) as Hw. repeat split.
   - exact (inv_tree _ Hw).
   - exact (inv_req _ Hw).
@@ -481,17 +525,17 @@ Proof.
 Qed.
 
 Lemma mgr_refresh_division K ops k mq :
-  let st := mrun K ops in
+  let st := mrun false K ops in
   afind k (g_quotas st) = Some mq ->
   let pth := rev (path k st) in
   let top := top_parent pth st in
-  same_figs st (refresh k st)
+  same_figs st (refresh false k st)
   /\ (top = 0 -> c_total (get_calc top st) = g_total st)
-  /\ exists mq', afind k (g_quotas (refresh k st)) = Some mq'
+  /\ exists mq', afind k (g_quotas (refresh false k st)) = Some mq'
                  /\ down pth (c_total (get_calc top st)) st = Some (q_runtime (m_info mq')).
 Proof.
-  intros st Hf pth top. pose proof (mrun_inv K ops) as Hi. fold st in Hi.
-  destruct (refresh_division st k mq Hi Hf) as [_ [Hs Hd]].
+  intros st Hf pth top. pose proof (mrun_inv false K ops) as Hi. fold st in Hi.
+  destruct (refresh_division st k mq Hi Hf) as [Hs Hd].
   split; [exact Hs|]. split; [|exact Hd].
   intro E. rewrite E. apply (mi_root_total _ Hi).
 Qed.
